@@ -53,6 +53,7 @@ import (
 	"google.golang.org/protobuf/encoding/protowire"
 
 	fxante "github.com/functionx/fx-core/v8/ante"
+	fxapp "github.com/functionx/fx-core/v8/app"
 	"github.com/functionx/fx-core/v8/contract"
 	"github.com/functionx/fx-core/v8/testutil/helpers"
 	fxtypes "github.com/functionx/fx-core/v8/types"
@@ -1100,7 +1101,10 @@ func (e *env) buildTx(c feeCase, signer *helpers.Signer, sign bool, ctx sdk.Cont
 }
 
 func (e *env) anteHandler(exempt []string, maxB uint64) sdk.AnteHandler {
-	app := e.s.App
+	return anteHandlerFor(e.s.App, exempt, maxB)
+}
+
+func anteHandlerFor(app *fxapp.App, exempt []string, maxB uint64) sdk.AnteHandler {
 	opts := fxante.HandlerOptions{
 		AccountKeeper: app.AccountKeeper, BankKeeper: app.BankKeeper, EvmKeeper: app.EvmKeeper, FeeMarketKeeper: app.FeeMarketKeeper,
 		IbcKeeper: app.IBCKeeper, GovKeeper: app.GovKeeper, SignModeHandler: app.GetTxConfig().SignModeHandler(),
@@ -1354,6 +1358,7 @@ func TestC20(t *testing.T) {
 	e.decoderSweep()
 	e.feeSweep()
 	e.hostileAnte()
+	e.anteRawSweep(t)
 	out.Stats.Extra["violation_counts"] = e.seenV
 	if len(e.dep) > 0 {
 		out.Stats.Extra["dependency_type_panics (SDK/IBC/ethermint message code, outside fx-core)"] = e.dep
